@@ -7,6 +7,7 @@ import TsVerif.C17.Intersect
 import TsVerif.C17.Locals
 import TsVerif.C17.Full
 import TsVerif.C17.StackSpec
+import TsVerif.C17.MultiOrder
 /-!
 Driver for C17.  Reads the case stream written by `harness/src/bin/c17` and prints one line per case:
 
@@ -282,15 +283,26 @@ def runFMerge (s : St) (root : Nat) (top : List Nat) : String :=
   let nloc := (cx.defs.map fun d => (d.caps.filter fun c => match c.kind with | .ref _ _ => true | .defn _ _ _ => true | _ => false).length).sum
   s!"{s.id} kind=F corr={corr} defsin={if Full.defsIn n cx then 1 else 0} refsup={if Full.refsUp cx then 1 else 0} fin={if fin then 1 else 0} wf={if wf then "ok" else "FAIL"} stack={stk} cause={cause} initsorted={if initSorted then 1 else 0} nlayers={cx.defs.length} ninj={ninj} nloc={nloc} depth={maxDepth s.evs} err={s.err}"
 
+/-- Bool version of `DefsNice` (hypothesis of `merge_events_in_place`), evaluated on the real layer data. -/
+def defsNiceB (defs : List LayerDef) : Bool :=
+  (defs.all fun d => capsOkR d.caps) &&
+  defs.all fun d => d.caps.all fun c =>
+    match c.kind with
+    | .inj ids => ids.all fun j => match defs[j]? with
+      | some d' => d'.caps.all fun c' => c.s ≤ c'.s
+      | none => true
+    | _ => true
+
 /-- `run mmerge`: the multi-layer merge model against the real event stream. -/
 def runMMerge (s : St) : String :=
   let n := s.src.length
   let defs := s.defs.toList
-  let (m, fin) := mergeLayers defs s.top n
+  -- the set-up of `Highlighter::highlight` that the probe of the real code found
+  let (m, fin) := if s.initInsert then mergeLayersR defs s.top n else mergeLayers defs s.top n
   let corr := if decide (m = s.evs) then "ok" else "DIFF"
   let wf := judgeEvents n s.evs
   let maxd := defs.foldl (fun a d => max a d.depth) 0
-  s!"{s.id} kind=N corr={corr} defsin={if defsIn n defs then 1 else 0} refsup={if refsUp defs then 1 else 0} fin={if fin then 1 else 0} wf={if wf then "ok" else "FAIL"} nlayers={defs.length} maxlayerdepth={maxd} ncaps={totalCaps defs} depth={maxDepth s.evs} ir={s.irTotal} irreal={s.irReal} irbad={s.irBad} err={s.err}"
+  s!"{s.id} kind=N corr={corr} defsin={if defsIn n defs then 1 else 0} refsup={if refsUp defs then 1 else 0} fin={if fin then 1 else 0} wf={if wf then "ok" else "FAIL"} nlayers={defs.length} maxlayerdepth={maxd} defsnice={if defsNiceB defs then 1 else 0} ncaps={totalCaps defs} depth={maxDepth s.evs} ir={s.irTotal} irreal={s.irReal} irbad={s.irBad} err={s.err}"
 
 /-- `run merge`: the single-layer merge model against the real event stream. -/
 def runMerge (s : St) : String :=
